@@ -359,7 +359,7 @@ UNITS["enc"] = dict(
         (_ENC + "key_bundle/lifetime.rs", "Lifetime::verify", r"pub fn verify\(&self\)"),
     ],
     harnesses=[
-        dict(name="message_scheme::ratchet::verif_proofs::one_step_from_any_valid_state", prop="C34", timeout=1500,
+        dict(name="message_scheme::ratchet::verif_proofs::one_step_from_any_valid_state", prop="C34", timeout=1500, native_search=True,
              encodes="DecryptionRatchet::secret_for_decryption, RatchetSecret::ratchet_forward (sender oracle)",
              bounds="ONE inductive step from any ratchet state satisfying the representation invariant: head 0..4, <= 3 kept entries each used/unused, ooo_tolerance 0..=3, max_forward 0..=3 (ooo + max_forward <= 5), any request up to head+max_forward+1"),
         dict(name="message_scheme::ratchet::verif_proofs::two_requests_windows_le2", prop="C34", tier="thorough", timeout=2400,
